@@ -399,9 +399,11 @@ void io_epoll_context::update_timers() noexcept {
       LOGX("dequeued elapsed timer %p\n", (void*)item);
 
       if (item->canBeCancelled_) {
+        UNIFEX_VERIF_YIELD("timer.ep.elapse_fa");
         auto oldState = item->state_.fetch_add(
             schedule_at_operation::timer_elapsed_flag,
             std::memory_order_acq_rel);
+        UNIFEX_VERIF_YIELD("timer.ep.elapsed");
         if ((oldState & schedule_at_operation::cancel_pending_flag) != 0) {
           LOGX("timer already cancelled\n");
 
